@@ -16,9 +16,11 @@ DESCR = {
                        "ast translation (harness/pytrans.py, fail-closed) of the grid-search position decoders and pointer update into "
                        "generated/GridGen.v; refinement to theories/Grid.v proved in proofs/GridTie.v; one case per translated function"),
     "translate_search": ("G:search source translator",
-                         "ast translation (fail-closed) of search.py (search_step, _initialization, _iteration, the search loop, "
-                         "init_search/finish_search), the TimesTracker/SearchStatistics decorators, ResultsManager.score and "
-                         "Memory.memory wrappers into generated/SearchGen.v; simulation by the model driver proved in proofs/SearchTie.v"),
+                         "ast translation (harness/pytrans.py, fail-closed) of search.py (_score, _initialization, _iteration, search_step, "
+                         "the loop of search()) and of the TimesTracker / SearchStatistics decorators into generated/SearchGen.v over the "
+                         "abstract optimizer; init_search / finish_search / __init__ are pinned by digest (modelled by hand); the "
+                         "simulation generated code -> model driver (proofs/SearchTie.v: every step function and the loop, for every "
+                         "optimizer, objective, clock and state) is compiled with the property's theorem file; one case per function"),
 }
 
 
@@ -47,7 +49,7 @@ def g_unit(ctx, modname):
     return u
 
 
-ALL_TRANSLATORS = ["translate_core", "translate_driver", "translate_grid"]
+ALL_TRANSLATORS = ["translate_core", "translate_driver", "translate_grid", "translate_search"]
 
 
 def refresh_all(ctx):
